@@ -7,9 +7,11 @@ cd "$(dirname "$0")/.."
 d=$1; shift
 props=${*:-$(python3 -c "import json;print(json.load(open('seeded/$d/meta.json'))['property'])")}
 git -C /repo diff --quiet || { echo "/repo working tree is not clean"; exit 2; }
-git -C /repo apply "$PWD/seeded/$d/patch.diff" || exit 2
-trap 'git -C /repo checkout -- . ' EXIT
 mkdir -p /tmp/seedrun
+# the evidence files and replays written while the change is applied do not describe /repo: they are put back afterwards
+bak=$(mktemp -d /tmp/seedrun/evidence.XXXXXX); cp -a evidence/. "$bak"/
+git -C /repo apply "$PWD/seeded/$d/patch.diff" || exit 2
+trap 'git -C /repo checkout -- . ; cp -a "$bak"/. evidence/ ; rm -rf "$bak"; true' EXIT
 for p in $props; do
   timeout 3000 ./check $p > /tmp/seedrun/$d-$p.log 2>&1; rc=$?
   echo "SEED $d check $p rc=$rc :: $(grep -E '^VIOLATION' /tmp/seedrun/$d-$p.log | head -1) :: $(grep -E 'broken:' /tmp/seedrun/$d-$p.log | head -2 | cut -c1-200 | tr '\n' ' ') :: $(grep -E 'failing input' /tmp/seedrun/$d-$p.log | head -1 | cut -c1-260)"
